@@ -11,7 +11,7 @@ From stdpp Require Import gmap.
 From Coq Require Import ZArith List.
 From V Require Import Base.Codec Base.Res Sched.LedgerModel Sched.StmtModel Sched.LedgerCodec Sched.GangModel
                       Sched.CycleModel Sched.CycleCodec Sched.CycleEntry Sched.GangValid Sched.GangLemmasMain Sched.GangLemmasAudit
-                      Sched.SubGroupModel Sched.SubGroupLaw.
+                      Sched.SubGroupModel Sched.SubGroupLaw Sched.LedgerInv Sched.LedgerLemmasSound.
 Import ListNotations.
 Open Scope Z_scope.
 
@@ -44,7 +44,16 @@ Definition sg_entry (toks : list Z) : list Z :=
 
 Definition count_allocate (acts : list Z) : nat := length (filter (fun a => a =? 1) acts).
 
+(* the base case of the theorems, per generated case: the session `build` produces satisfies the
+   executable forms of ledger_inv (C07's ledger_okb + heap_nonnegb, sound by ledger_okb_sound_b),
+   gang_inv incl. heap_members (ginvb_sound), no bind fault, no statement *)
+Definition base_okb (c : cycle_case) : bool :=
+  let s := w_sess (world_of c) in
+  heap_nonnegb (heap s) && ledger_okb (heap s) (jobs s) (nodes s) && ginvb (heap s) (jobs s) &&
+  bool_decide (refuse_bind s = ∅) && bool_decide (stmts s = ∅).
+
 Definition law_guard (c : cycle_case) : bool :=
+  base_okb c &&
   if (1 <? Z.of_nat (count_allocate (cc_actions c))) then true
   else
     (* the guard itself, and the one-allocate shape from which the theorem derives it: the snapshot
@@ -57,6 +66,12 @@ Definition entry (sel : Z) (toks : list Z) : list Z :=
   | 2 => ready_entry toks
   | 3 => sg_entry toks
   | 4 => match run_dec dMixCounts toks with Some l => l | None => bad_input end
+  | 5 => (* roles family with a PodGroup update before the cycle: the prefix (old minTaskMember) is not the
+            model's business, it judges against the current PodGroup *)
+         match run_dec (let* _ := dList (dPair dZ dZ) in fun l => Some (l, [])) toks with
+         | Some rest => cycle_entry 1 rest | None => bad_input end
+  | 111 => cycle_entry 101 toks   (* law 101 restricted to the binds of the jobs that show the F10 mechanism *)
+  | 115 => match run_dec dLaw105 toks with Some (js, ts, b) => eBool (law_gang_sub js ts b) | None => bad_input end
   | 105 => match run_dec dLaw105 toks with Some (js, ts, b) => eBool (law_gang_sub js ts b) | None => bad_input end
   | 104 => match run_dec dLawIn toks with Some (c, _, _) => eBool (law_guard c) | None => bad_input end
   | _ => cycle_entry sel toks
